@@ -1424,6 +1424,32 @@ def rule_codec(prog):
         ok = None
     out.add("LSCodec::decode", "exactly the decoded frame is consumed (advance(content_end))", ok,
             c.loc(adv[1]["sp"]) if adv else c.loc(dec["sp"]), "")
+    # the answer for a frame does not depend on what is buffered behind it: the bytes from the end of the frame on (the amount that is
+    # consumed) belong to the next frame, which may be incomplete, spelled differently, or not there yet
+    if end_name is not None or adv is not None:
+        ends = {end_name} | ({place(adv[1]["args"][0])} if adv is not None and adv[1].get("args") else set())
+        ends.discard(None)
+        beyond = None
+        for n_ in hir.nodes(dec["body"]):
+            rng_ = None
+            if n_.get("k") == "Index" and place(hir.strip_ref(n_["base"])) == src:
+                rng_ = hir.strip(n_["idx"])
+            elif n_.get("k") == "MethodCall" and n_["m"] in ("get", "split_at", "split_off", "starts_with", "chunk") and place(hir.strip_ref(n_["recv"])) == src and n_.get("args"):
+                rng_ = hir.strip(n_["args"][0])
+            if rng_ is None:
+                continue
+            if rng_.get("k") == "Struct":
+                f_ = {x["name"]: place(hir.strip(x["e"])) for x in rng_["fields"]}
+                if f_.get("start") in ends:
+                    beyond = n_
+            elif n_.get("k") == "MethodCall" and n_["m"] in ("split_at", "split_off") and place(rng_) in ends and adv is not None and \
+                    n_ is not adv[1]:
+                # (reading the tail that split_off/split_at hands back - only a violation if it is looked at; not followed here)
+                pass
+        out.add("LSCodec::decode", "the answer for a complete frame does not depend on the bytes buffered behind it", beyond is None,
+                c.loc((beyond or dec)["sp"]), "decode slices the buffer from the end of the frame on and looks at the start of the next frame: "
+                "a legal next header (`content-length`, or `Content-Type` first) that arrives in the same read is answered with an error "
+                "that ends the server, while the same frames written one by one are served", ("beyond",))
     # content_end = content_start + content_length ; content_length parsed from the Content-Length header
     ce = None
     for s in seq:
@@ -2449,10 +2475,10 @@ def rule_text_sync(prog):
                     if peeks(e["scrut"], sc):
                         if lits == ["\n"]:
                             return env["next_lf"]
-                    elif is_char(e["scrut"], sc) and lits and all(isinstance(v_, str) and len(v_) == 1 for v_ in lits) and \
-                            all(a_.get("guard") is None for a_ in e["arms"]):
-                        # matches!(c, '\n' | '\r')
-                        return env["c"] in lits
+                    elif is_char(e["scrut"], sc) and all(a_.get("guard") is None for a_ in e["arms"]) and len(e["arms"]) == 2:
+                        # matches!(c, '\n' | '\r'), also with ranges: the first arm is the pattern, the second the rest
+                        from . import charclass
+                        return charclass.Eval(prog, c).pat_matches(e["arms"][0]["pat"], env["c"])
                     return None
                 if k == "Path":
                     pl_ = hir.path_local(e)
@@ -2512,7 +2538,7 @@ def rule_text_sync(prog):
 
                 def table():
                     res = {}
-                    for ch in ("\n", "\r", "a"):
+                    for ch in ("\n", "\r") + OTHERS:
                         for nl in (True, False):
                             vals = []
                             for cd, pos in conds:
@@ -2525,18 +2551,23 @@ def rule_text_sync(prog):
                             else:
                                 res[(ch, nl)] = None
                     return res
+                # (LSP: "\n", "\r\n" and "\r" are the line endings - the Unicode separators, NEL, VT and FF are ordinary characters of a line)
+                OTHERS = ("a", "\u2028", "\u2029", "\x85", "\x0b", "\x0c", " ", "\t")
                 tb = table()
                 if advances and not is_exit or (advances and is_exit and False):
-                    want = {("\n", True): True, ("\n", False): True, ("\r", False): True, ("\r", True): False, ("a", True): False, ("a", False): False}
+                    want = {("\n", True): True, ("\n", False): True, ("\r", False): True, ("\r", True): False}
                     label = "the line counter advances exactly at a line feed and at a carriage return that is not followed by one"
                 elif is_exit:
-                    want = {("\n", True): True, ("\n", False): True, ("\r", False): True, ("\r", True): True, ("a", True): False, ("a", False): False}
+                    want = {("\n", True): True, ("\n", False): True, ("\r", False): True, ("\r", True): True}
                     label = "a column behind the end of the line is clamped in front of the first character of the line break (LF, CR of CRLF, lone CR)"
                 else:
                     continue
+                for o_ in OTHERS:
+                    want[(o_, True)] = False
+                    want[(o_, False)] = False
                 undec = any(v is None for v in tb.values())
                 ok_t = None if undec else tb == want
-                bad_cases = sorted("%s%s" % ({"\n": "LF", "\r": "CR", "a": "other"}[k_[0]], "+LF" if k_[1] else "") for k_ in want if tb.get(k_) is not None and tb[k_] != want[k_])
+                bad_cases = sorted("%s%s" % ({"\n": "LF", "\r": "CR", "a": "other"}.get(k_[0], "U+%04X" % ord(k_[0])), "+LF" if k_[1] else "") for k_ in want if tb.get(k_) is not None and tb[k_] != want[k_])
                 out.add("document::" + fn, label, ok_t, c.loc(iff["sp"]),
                         "decided over {LF, CR, other} x {next is LF}: wrong for %s - for an overshooting column in a CRLF line the position "
                         "lands between CR and LF (the next insertion tears the line break apart), or lines are counted differently from the client"
